@@ -161,6 +161,13 @@ class Engine:
             v = self.resolve_in_module(ex.modname, name)
             if v is not None:
                 return v
+        elif getattr(ex, "clause_module", None):
+            # a contract clause may name a sentinel object (X = object()) of the module it is about
+            mi = self.repo.module(ex.clause_module)
+            bs = mi.bindings.get(name) if mi is not None else None
+            if bs and isinstance(bs[-1], ast.Assign) and isinstance(bs[-1].value, ast.Call) \
+                    and isinstance(bs[-1].value.func, ast.Name) and bs[-1].value.func.id == "object":
+                return self.resolve_in_module(ex.clause_module, name)
         if name in TYPE_NAMES:
             return Const("type", name)
         if name in BUILTIN_FUNCS:
@@ -395,8 +402,7 @@ class Engine:
         return False
 
     def obj_attr(self, ex, st, base, attr):
-        from . import opaque
-        yield from opaque.attr(ex, st, base, attr)
+        raise Unsupported(f"attribute {attr} of an opaque object")
 
     def generator_target(self, ex, st, callnode):
         """if `callnode` calls a generator function of the repo -> (fi, selfref, args, kwargs)"""
@@ -602,6 +608,56 @@ class Engine:
             self.assumptions_used.add("len(x) <= 2**63 - 1 for every container (Py_ssize_t)")
         return out
 
+    def data_facts(self, terms, seen=None):
+        """Data-model assumption (listed in the evidence): the module sentinels (`X = object()`) are never
+        *elements* of containers -- user data cannot contain them and the code never stores one (checked:
+        an obligation whose formulas build a container around a sentinel gets no such fact).  So every
+        element access `xs[i]` / `d[k]` yields a non-sentinel."""
+        if not self._sentinels:
+            return []
+        out = []
+        seen = set() if seen is None else seen
+        stack = list(terms)
+        stored = False
+        acc = []
+        while stack:
+            t = stack.pop()
+            tid = t.get_id()
+            if tid in seen:
+                continue
+            seen.add(tid)
+            if not z3.is_app(t):
+                continue
+            k = t.decl().kind()
+            if k == z3.Z3_OP_SEQ_UNIT and t.arg(0).sort().eq(Py) and self._mentions_sentinel(t.arg(0)):
+                stored = True
+            elif k == z3.Z3_OP_SEQ_NTH and t.sort().eq(Py):
+                acc.append(t)
+            elif t.decl().eq(S.DGET):
+                acc.append(t)
+            stack.extend(t.children())
+        if stored:
+            return []
+        for t in acc:
+            out.append(z3.Not(z3.And(Py.is_obj(t), Py.cls(t) == 7)))
+        if out:
+            self.assumptions_used.add("module sentinel objects (X = object()) are never elements of containers")
+        return out
+
+    def _mentions_sentinel(self, t):
+        stack = [t]
+        seen = set()
+        while stack:
+            x = stack.pop()
+            if x.get_id() in seen:
+                continue
+            seen.add(x.get_id())
+            if z3.is_app(x):
+                if x.decl().eq(Py.obj) and z3.is_int_value(x.arg(0)) and x.arg(0).as_long() == 7:
+                    return True
+                stack.extend(x.children())
+        return False
+
     def prune_ites(self, t, decide, limit=40):
         """replace if-then-else subterms whose condition the obligation's context decides
         (e.g. the negative-index normalisation `If(i < 0, i + n, i)` when i >= 0 is known)"""
@@ -751,6 +807,8 @@ class Engine:
         t0 = time.time()
         base = list(ob.hyps) + [z3.Not(ob.goal)]
         base += self.length_bounds(base)
+        data_seen = set()
+        base += self.data_facts(base, data_seen)
         seen_ids = set()
         seen_apps = set()
         defs = []
@@ -811,8 +869,12 @@ class Engine:
                 ob.fuel_used = depth
                 break
             if r == z3.sat:
-                verdict = "refuted"
-                model = s.model()
+                try:
+                    model = s.model()
+                    verdict = "refuted"
+                except z3.Z3Exception as e:     # "model is not available": treat the round as undecided
+                    verdict = "unknown"
+                    reason = f"z3: {e}"
             else:
                 verdict = "unknown"
                 reason = s.reason_unknown()
@@ -831,6 +893,7 @@ class Engine:
                 new.append(self.unfold(sf, app, decide))
             if not new:
                 break
+            new += self.data_facts(new, data_seen)
             defs.extend(new)
             for d in new:
                 ctx.add(d)
